@@ -80,11 +80,23 @@ def directiveOfPart (part : Str) : Option (Str × Str) :=
 
 def sNoCache : Str := str% "no-cache"
 
+/-- quoteString: `"`, every byte that is not qdtext escaped with a backslash, `"` -/
+def quoteString (s : Str) : Str :=
+  '"' :: (s.flatMap fun c => if validQDText c then [c] else ['\\', c]) ++ ['"']
+
 /-- one assignment of parseDirectives: later occurrence wins, except that an unqualified
-    no-cache is kept -/
+    no-cache is kept and two qualified ones name the fields of both lists -/
 def directiveInsert (m : Directives) (k v : Str) : Directives :=
   match alookup k m with
-  | some prev => if k = sNoCache && (parseQuotedString prev).isEmpty then m else ainsert k v m
+  | some prev =>
+    if k = sNoCache then
+      let prevFields := parseQuotedString prev
+      if prevFields.isEmpty then m
+      else
+        let fields := parseQuotedString v
+        if fields.isEmpty then ainsert k v m
+        else ainsert k (quoteString (prevFields ++ [','] ++ fields)) m
+    else ainsert k v m
   | none => ainsert k v m
 
 /-- parseDirectives -/
